@@ -187,7 +187,7 @@ fn run_reader(cs: &serde_avro_fast::Schema, input: &[u8], t: &Target, env: &Env_
 	let l = limits_for(input.len());
 	match env {
 		Env_::Chunks(sizes) => de_bufread(cs, ChunkedBufRead::new(input, sizes.clone(), 0), t, &l, true),
-		Env_::BufReader(cap) => de_bufread(cs, BufReader::with_capacity(*cap, input), t, &l, true),
+		Env_::BufReader(cap) => de_bufread(cs, BufReader::with_capacity(*cap, crate::envs::HorizonRead::new(input)), t, &l, true),
 	}
 }
 
@@ -686,7 +686,7 @@ fn single_reader(cs: &serde_avro_fast::Schema, input: &[u8], env: &Env_) -> Sing
 			r.map(|o| o.0).map_err(|e| e.to_string())
 		}
 		Env_::BufReader(cap) => {
-			let mut p = Probe::new(BufReader::with_capacity(*cap, input));
+			let mut p = Probe::new(BufReader::with_capacity(*cap, crate::envs::HorizonRead::new(input)));
 			let r = serde_avro_fast::from_single_object_reader::<_, OAny>(&mut p, cs);
 			run.consumed = p.consumed;
 			run.varint_fallbacks = p.varint_fallbacks;
@@ -873,7 +873,7 @@ fn file_reader(bytes: &[u8], env: &Env_, hint: &Hint) -> (Vec<Step>, usize) {
 				s
 			}
 			Env_::BufReader(cap) => {
-				let mut p = Probe::new(BufReader::with_capacity(*cap, bytes));
+				let mut p = Probe::new(BufReader::with_capacity(*cap, crate::envs::HorizonRead::new(bytes)));
 				let s = drain(serde_avro_fast::object_container_file_encoding::Reader::from_reader(&mut p), hint);
 				consumed = p.consumed;
 				s
